@@ -33,8 +33,7 @@ import (
 
 const idleFor = 9 * time.Second
 
-func idlePhase(r *vkit.R) {
-	g := r.Rng.Fork("idle")
+func idlePhase(r *vkit.R, g *vkit.Rand) {
 	var cfgs []schemaCfg
 	count := string(proxyv1alpha1.GlobalCountLimit)
 	for i := 0; i < r.N(2, 8); i++ {
